@@ -100,6 +100,12 @@ type Frame struct {
 }
 
 type X struct {
+	// instantiation hints: universally quantified preconditions assumed at the
+	// entry of the function under verification, as functions of the bound
+	// variable; instantiated at slice element reads (sym_instr.go indexAddr)
+	recordForalls  bool
+	assumedForalls []func(Term) Term
+	instDone       map[string]bool
 	externGlobal   int
 	prog           *ssa.Program
 	vc             *VC
